@@ -391,3 +391,59 @@ class LocalGraph:
             if k < depth and x in self.bodies:
                 st.extend((y, k + 1) for y in self.succ(x))
         return False
+
+
+class FlagGuard:
+    """"This code runs only when option X is set": the block is control-dependent on a test of the struct field holding
+    the option, in its own function or at every use (call, closure construction) of that function, up to a few levels.
+    The field is found by name in the fact base of the struct; functions are found by what they contain."""
+
+    def __init__(self, facts, crate, struct_def, field, skip=lambda body: False):
+        adt = [a for a in facts.items(crate)["adts"] if a["def"] == struct_def]
+        self.ok = bool(adt) and field in [f["name"] for f in adt[0]["variants"][0]["fields"]]
+        self.struct = struct_def
+        self.bodies = {}
+        if not self.ok:
+            return
+        self.idx = [f["name"] for f in adt[0]["variants"][0]["fields"]].index(field)
+        for c, body in facts.all_mir():
+            if c == crate and not body.get("test") and not skip(body):
+                self.bodies[body["def"]] = Body(body)
+        self._sw = {}
+
+    def switches(self, d):
+        if d not in self._sw:
+            b = self.bodies[d]
+            flag_locals = set()
+            for bb in b.bbs:
+                for s_ in bb["st"]:
+                    if s_.get("k") == "A" and s_["r"].get("k") == "Use":
+                        pl = s_["r"]["o"].get("c") or s_["r"]["o"].get("m")
+                        if pl and b.locals[pl["l"]]["ty"].endswith(self.struct) and [e for e in (pl.get("pr") or []) if e != "*"] == [{"f": self.idx}]:
+                            flag_locals.add(s_["p"]["l"])
+            self._sw[d] = b.switches_on(flag_locals) if flag_locals else []
+        return self._sw[d]
+
+    def use_sites(self, d):
+        out = []
+        for cd, cb in self.bodies.items():
+            for i, t in cb.calls():
+                if (Body.callee(t) or "") == d or (t.get("fn") or "") == d:
+                    out.append((cd, i))
+            for i, bb in enumerate(cb.bbs):
+                for s_ in bb["st"]:
+                    if s_.get("k") == "A" and s_["r"].get("k") == "Agg" and s_["r"].get("ak") == "Closure:" + d:
+                        out.append((cd, i))
+        return out
+
+    def conditional(self, d, block, depth=0, seen=()):
+        b = self.bodies[d]
+        if any(b.controlled_by(block, sw) for sw in self.switches(d)):
+            return True
+        if depth >= 4 or d in seen:
+            return False
+        us = self.use_sites(d)
+        return bool(us) and all(self.conditional(cd, i, depth + 1, seen + (d,)) for cd, i in us)
+
+    def tested_somewhere(self):
+        return any(self.switches(d) for d in self.bodies)
